@@ -17,6 +17,35 @@ structure TextAfterTag (W R' : Str) : Prop where
   rest : R' = [] ∨ ∃ c r, R' = c :: r ∧ isPestWs c = false
   noOpen : noOpen R'
 
+theorem split_ws (c : Str) : c = c.takeWhile isPestWs ++ c.dropWhile isPestWs := (List.takeWhile_append_dropWhile).symm
+
+theorem takeWhile_ws (c : Str) : ∀ ch ∈ c.takeWhile isPestWs, isPestWs ch = true := by
+  induction c with
+  | nil => intro ch h; simp at h
+  | cons a c ih =>
+    intro ch h
+    by_cases ha : isPestWs a = true
+    · simp only [List.takeWhile, ha, List.mem_cons] at h
+      rcases h with rfl | h
+      · exact ha
+      · exact ih ch h
+    · simp [List.takeWhile, ha] at h
+
+theorem dropWhile_ws_head (c : Str) : c.dropWhile isPestWs = [] ∨ ∃ x r, c.dropWhile isPestWs = x :: r ∧ isPestWs x = false := by
+  cases h : c.dropWhile isPestWs with
+  | nil => left; rfl
+  | cons x r =>
+    right; refine ⟨x, r, rfl, ?_⟩
+    have := List.head_dropWhile_not isPestWs (l := c) (by simp [h])
+    simpa [h] using this
+
+
+/-- any text without `{{` splits into the whitespace pest skips and the rest -/
+theorem textAfterTag_split (R : Str) (hR : noOpen R) :
+    TextAfterTag (R.takeWhile isPestWs) (R.dropWhile isPestWs) :=
+  ⟨takeWhile_ws R, dropWhile_ws_head R, noOpen_dropWhile _ R hR⟩
+
+
 def rawTok (a b : Nat) : List (Tok Rule) := if a = b then [] else [⟨some .r_raw_text, a, b⟩]
 
 /-- the elements after the tag -/
